@@ -669,6 +669,36 @@ impl<P: SizedPayload> St<P> {
         let nonarc = self.others_nonarc(i);
         let newv = self.fresh_val();
         let kind = self.slots[i].h.kind();
+        if !sole && b >= 192 && !P::ZST {
+            // Clone::clone panics: the handle must be left as it was (same allocation, counts unchanged)
+            let before = data_addr(&self.slots[i].h);
+            tok::panic_at(1);
+            let r = match &mut self.slots[i].h {
+                H::Arc(a) => catch_unwind(AssertUnwindSafe(|| lib!(Arc::make_mut(a).peekp().val))),
+                H::Off(o) => catch_unwind(AssertUnwindSafe(|| lib!(o.make_mut().peekp().val))),
+                H::Hs(h) => catch_unwind(AssertUnwindSafe(|| lib!(Arc::make_mut(h).slice.peekp().val))),
+                _ => Ok(0),
+            };
+            tok::panic_at(0);
+            let unwound = r.is_err();
+            drop(r);
+            if unwound {
+                if data_addr(&self.slots[i].h) != before {
+                    viol::report(&["C08", "C07"], "W.clone-panic-moved", format!("make_mut on slot {} ({:?}): Clone panicked but the handle points elsewhere", i, kind));
+                }
+                for (sj, s) in self.slots.iter().enumerate() {
+                    if s.alloc == ai {
+                        for (n, cnt) in counts(&s.h) {
+                            if cnt != owners as usize {
+                                viol::report(&["C08", "C07"], "W.clone-panic-count", format!("make_mut on slot {} ({:?}): Clone panicked and afterwards {} on slot {} reports {} but {} owning handles exist (the previous allocation must lose an owner only when the copy succeeded)", i, kind, n, sj, cnt, owners));
+                            }
+                        }
+                    }
+                }
+                self.log(|| format!("make_mut on slot {} ({:?}, alloc #{}, {} owners): Clone panicked", i, kind, ai, owners));
+                return;
+            }
+        }
         let clones_before = tok::clones();
         let (how, eff) = match &mut self.slots[i].h {
             H::Arc(a) => {
@@ -1002,6 +1032,39 @@ impl<P: SizedPayload> St<P> {
         }
         if seen.get() {
             self.facts.count_in_callback_at3 |= self.allocs[self.slots[i].alloc].owners >= 3;
+        }
+        // the same comparison with the payload's callback panicking: afterwards every handle must still be
+        // valid with an accurate count (the check_all after this step verifies values and liveness)
+        if c >= 128 {
+            let r = {
+                let slots = &self.slots;
+                tok::panic_at(1);
+                let r = catch_unwind(AssertUnwindSafe(|| match (&slots[i].h, &slots[j].h) {
+                    (H::Arc(x), H::Arc(y)) => lib!(x == y),
+                    (H::Off(x), H::Off(y)) => lib!(x == y),
+                    (H::U1(x), H::U1(y)) => lib!(x == y),
+                    (H::U2(x), H::U2(y)) => lib!(x == y),
+                    (H::Hs(x), H::Hs(y)) => lib!(x == y),
+                    _ => false,
+                }));
+                tok::panic_at(0);
+                r
+            };
+            drop(r);
+            for (sj, s) in self.slots.iter().enumerate() {
+                if sj == i || sj == j {
+                    let owners = self.allocs[s.alloc].owners as usize;
+                    for (n, cnt) in counts(&s.h) {
+                        if cnt != owners {
+                            viol::report(
+                                &["C07", "C04", "C12"],
+                                "N.count-after-panicking-compare",
+                                format!("after a comparison whose payload eq panicked, {} on slot {} ({:?}) reports {} but {} owning handles exist", n, sj, s.h.kind(), cnt, owners),
+                            );
+                        }
+                    }
+                }
+            }
         }
         if let Some(r) = res {
             if r != (vi == vj) {
